@@ -69,6 +69,8 @@ type Obs struct {
 	Status []StatusObs `json:"status,omitempty"`
 	Scan   ScanObs     `json:"scan"`
 	Detail string      `json:"detail,omitempty"`
+	// number of injected faults the run actually triggered (evidence only)
+	FaultsHit int `json:"faults_hit,omitempty"`
 }
 
 type Case struct {
@@ -164,6 +166,7 @@ func (e *fakeExt) Extract(_ context.Context, in *filesystem.ScanInput) (inventor
 // ---------------------------------------------------------------- running the implementation
 
 type setup struct {
+	hits  int
 	rec   *recorder
 	ctx   context.Context
 	exts  []filesystem.Extractor
@@ -197,7 +200,7 @@ func (c *Case) setup() *setup {
 		s.exts = append(s.exts, fe)
 	}
 	for _, r := range c.Roots {
-		s.roots = append(s.roots, &scalibrfs.ScanRoot{FS: &memFS{root: r, patFiles: c.PatFiles}, Path: ""})
+		s.roots = append(s.roots, &scalibrfs.ScanRoot{FS: &memFS{root: r, patFiles: c.PatFiles, hits: &s.hits}, Path: ""})
 	}
 	if c.Regex != nil {
 		s.re = regexp.MustCompile(*c.Regex)
@@ -296,6 +299,7 @@ func runCase(c *Case, withScan bool) {
 		c.Obs.Inv = invObs(inv.Packages)
 		c.Obs.Status = statusObs(sts)
 	}()
+	c.Obs.FaultsHit = s.hits
 	c.Obs.Events = s.rec.events
 	if c.Obs.Events == nil {
 		c.Obs.Events = [][3]string{}
@@ -609,8 +613,8 @@ func coqCase(c *Case) string {
 		cancel = fmt.Sprintf("(CancelAtExtract %d%%nat)", c.Cancel.N)
 	}
 	return fmt.Sprintf("{| w_roots := %s; w_exts := %s; w_req := %s; w_xt := %s; w_pat := %s; w_skip := %s; w_re := %s; w_glob := %s; "+
-		"w_gi := %s; w_isd := %s; w_paths := %s; w_sym := %s; w_maxi := %s; w_maxs := %s; w_fatal := %s; w_cancel := %s;\n     w_obs := %s |}",
+		"w_gi := %s; w_isd := %s; w_paths := %s; w_sym := %s; w_maxi := %s; w_maxs := %s; w_fatal := %s; w_cancel := %s; w_group := %d;\n     w_obs := %s |}",
 		cf.List(roots), cf.List(exts), cf.List(req), cf.List(xt), cf.List(patTable(c)), coqPaths(c.SkipList), re, gl,
 		cf.Bool(c.Gitignore), cf.Bool(c.IgnoreSub), coqPaths(c.Paths), cf.Bool(c.Symlinks), cf.Z(int64(c.MaxInodes)),
-		cf.Z(int64(c.MaxSize)), cf.Bool(c.Fatal), cancel, coqObs(&c.Obs))
+		cf.Z(int64(c.MaxSize)), cf.Bool(c.Fatal), cancel, c.Group, coqObs(&c.Obs))
 }
